@@ -5,6 +5,7 @@ import (
 	"context"
 	"flag"
 	"fmt"
+	"io"
 	"math/rand"
 	"net"
 	"os"
@@ -19,6 +20,7 @@ import (
 	"github.com/jamf/regatta/regattapb"
 	"github.com/jamf/regatta/regattaserver"
 	"github.com/jamf/regatta/replication"
+	"github.com/jamf/regatta/replication/snapshot"
 	"github.com/jamf/regatta/storage"
 	"github.com/jamf/regatta/storage/table"
 	"github.com/lni/dragonboat/v4"
@@ -827,6 +829,211 @@ func runC05Tables(rf *runFlags, rnd *rand.Rand, sum *Summary, caseNo int, recrea
 	return nil
 }
 
+type snapFile interface {
+	io.Reader
+	io.Seeker
+	Sync() error
+	Close() error
+	Path() string
+}
+
+// failingReader hands out n records and then fails (an interrupted snapshot installation)
+type failingReader struct {
+	r io.Reader
+	n int
+}
+
+func (f *failingReader) Read(p []byte) (int, error) {
+	if f.n <= 0 {
+		return 0, fmt.Errorf("injected: snapshot installation interrupted")
+	}
+	f.n--
+	return f.r.Read(p)
+}
+
+// reference content after exactly the leader entries 1..idx
+func referenceAt(h *c05history, idx uint64) (string, error) {
+	ref, _, err := newRealFSM(pvfs.NewMem(), 0)
+	if err != nil {
+		return "", err
+	}
+	defer ref.close()
+	for _, e := range h.entries {
+		if e.Index > idx {
+			break
+		}
+		if e.Type == raftpb.EncodedEntry {
+			if _, err := ref.f.Update([]sm.Entry{{Index: e.Index, Cmd: e.Cmd[1:]}}); err != nil {
+				return "", err
+			}
+		}
+	}
+	return contentHex(ref)
+}
+
+// snapshot recovery as the worker does it (download through the real snapshot service, Engine.Restore), with the
+// leader writing at full speed while the snapshot is produced, and with an installation that is interrupted half
+// way and retried after the leader moved on (deleted keys that the first attempt had already loaded)
+func runC05Restore(rf *runFlags, rnd *rand.Rand, sum *Summary, caseNo int) error {
+	sys := &c05sys{}
+	defer sys.close()
+	var err error
+	if sys.leader, err = newC05Node(fmt.Sprintf("leaderR%d", caseNo), 0, 0, 64, nil); err != nil {
+		return err
+	}
+	if sys.follower, err = newC05Node(fmt.Sprintf("followerR%d", caseNo), 0, 0, 0, nil); err != nil {
+		return err
+	}
+	if err := sys.startServer(0); err != nil {
+		return err
+	}
+	const tname = "t"
+	if _, err := sys.leader.e.CreateTable(tname); err != nil {
+		return err
+	}
+	lt, err := sys.leader.waitTable(tname)
+	if err != nil {
+		return err
+	}
+	hist := &c05history{shard: lt.ClusterID}
+	put := func(k string, v []byte) error {
+		ctx, cancel := context.WithTimeout(context.Background(), 5*time.Second)
+		defer cancel()
+		_, err := lt.Put(ctx, &regattapb.PutRequest{Table: []byte(tname), Key: []byte(k), Value: v})
+		return err
+	}
+	nbulk := 320
+	for i := 0; i < nbulk; i++ {
+		if err := put(fmt.Sprintf("bulk-%04d", i), bytes.Repeat([]byte{byte('a' + i%26)}, 4000)); err != nil {
+			return err
+		}
+	}
+	download := func() (snapFile, error) {
+		ctx, cancel := context.WithTimeout(context.Background(), 60*time.Second)
+		defer cancel()
+		stream, err := regattapb.NewSnapshotClient(sys.conn).Stream(ctx, &regattapb.SnapshotRequest{Table: []byte(tname)})
+		if err != nil {
+			return nil, err
+		}
+		sf, err := snapshot.NewTemp()
+		if err != nil {
+			return nil, err
+		}
+		if _, err := io.Copy(sf.File, &snapshot.Reader{Stream: stream}); err != nil {
+			return nil, err
+		}
+		if err := sf.Sync(); err != nil {
+			return nil, err
+		}
+		_, err = sf.Seek(0, io.SeekStart)
+		return sf, err
+	}
+	checkFollower := func(what string, in map[string]any) error {
+		if _, err := sys.follower.waitTable(tname); err != nil {
+			return err
+		}
+		fl, err := sys.follower.leaderIndex(tname)
+		if err != nil {
+			return err
+		}
+		la, err := sys.leader.localIndex(tname)
+		if err != nil {
+			return err
+		}
+		if err := hist.fetchUpTo(sys.leader, la); err != nil {
+			return fmt.Errorf("leader history: %w", err)
+		}
+		fc, err := sys.follower.content(tname, true)
+		if err != nil {
+			return err
+		}
+		if fl > la {
+			sum.violate(caseNo, "the follower records a leader index the leader never reached", in, fmt.Sprintf("follower %d leader %d", fl, la))
+			return nil
+		}
+		want, err := referenceAt(hist, fl)
+		if err != nil {
+			return err
+		}
+		if fc != want {
+			sum.violate(caseNo, "the follower's content differs from the leader's content at the recorded leader index", in,
+				fmt.Sprintf("%s: recorded leader index %d (leader applied %d): follower has %d bytes of content, the leader at that index %d", what, fl, la, len(fc), len(want)))
+		}
+		return nil
+	}
+	// (A) the leader writes while the snapshot is produced
+	inA := map[string]any{"variant": "snapshot recovery while the leader writes", "seed": rf.Seed, "case": caseNo}
+	stop := make(chan struct{})
+	var wg sync.WaitGroup
+	var werr error
+	wg.Add(1)
+	go func() {
+		defer wg.Done()
+		for i := 0; ; i++ {
+			select {
+			case <-stop:
+				return
+			default:
+			}
+			if err := put(fmt.Sprintf("w-%06d", i), []byte("x")); err != nil {
+				werr = err
+				return
+			}
+		}
+	}()
+	time.Sleep(20 * time.Millisecond)
+	sfA, err := download()
+	close(stop)
+	wg.Wait()
+	if err != nil {
+		return err
+	}
+	if werr != nil {
+		return werr
+	}
+	sum.Evaluations++
+	sum.DistinctNontrivial++
+	if err := sys.follower.e.Restore(tname, sfA); err != nil {
+		return fmt.Errorf("restore: %w", err)
+	}
+	_ = sfA.Close()
+	_ = os.Remove(sfA.Path())
+	if err := checkFollower("after a recovery from a snapshot produced while the leader was writing", inA); err != nil {
+		return err
+	}
+	// (B) an installation interrupted half way, the leader moves on, the installation is retried
+	inB := map[string]any{"variant": "snapshot installation interrupted and retried", "seed": rf.Seed, "case": caseNo}
+	sf1, err := download()
+	if err != nil {
+		return err
+	}
+	rerr := sys.follower.e.Restore(tname, &failingReader{r: sf1, n: nbulk / 2})
+	_ = sf1.Close()
+	_ = os.Remove(sf1.Path())
+	sum.Evaluations++
+	if rerr == nil {
+		return fmt.Errorf("harness: the interrupted restore did not fail")
+	}
+	for i := 0; i < 12; i++ { // keys the interrupted attempt had already loaded
+		ctx, cancel := context.WithTimeout(context.Background(), 5*time.Second)
+		_, err := lt.Delete(ctx, &regattapb.DeleteRangeRequest{Table: []byte(tname), Key: []byte(fmt.Sprintf("bulk-%04d", i))})
+		cancel()
+		if err != nil {
+			return err
+		}
+	}
+	sf2, err := download()
+	if err != nil {
+		return err
+	}
+	if err := sys.follower.e.Restore(tname, sf2); err != nil {
+		return fmt.Errorf("retried restore: %w", err)
+	}
+	_ = sf2.Close()
+	_ = os.Remove(sf2.Path())
+	return checkFollower("after a retried snapshot installation", inB)
+}
+
 func runC05(args []string) error {
 	only := ""
 	rf, err := parseFlags("c05", args, func(fs *flag.FlagSet) { fs.StringVar(&only, "variant", "", "run one variant only") })
@@ -867,6 +1074,13 @@ func runC05(args []string) error {
 			}
 			c++
 		}
+	}
+	if only == "" || strings.Contains("restore", only) {
+		sum.hist("variants").Inc("snapshot recovery under leader writes; interrupted and retried installation")
+		if err := runC05Restore(rf, rnd, sum, c); err != nil {
+			return fmt.Errorf("restore variant: %w", err)
+		}
+		c++
 	}
 	for _, recreate := range []bool{false, true} {
 		if only != "" && !strings.Contains("tables", only) {
